@@ -226,7 +226,7 @@ def oracle_worlds(case: dict) -> Outcome:
         base = None
         for r, res in lst:
             lay = res["layout"]
-            jr = (r % G) if pb.flavour == "ddp" else ((r // pb.S) % G)
+            jr = pb.group_rank(r)
             if len(lay["views"]) != len(blocks):
                 out.fail("C14.d.views", "number of block buffers differs from the number of blocks", f"rank {r}: {len(lay['views'])} vs {len(blocks)}")
                 return out
@@ -260,7 +260,7 @@ def oracle_worlds(case: dict) -> Outcome:
         # state ownership: within a communication group every block has state on exactly one rank
         groups: dict = {}
         for r, res in lst:
-            gid = (r // G) if pb.flavour == "ddp" else ((r // pb.S) // G)
+            gid = pb.group_id(r)
             groups.setdefault(gid, []).append(res)
         nblocks_per_param: dict = {}
         for (i, n) in blocks:
